@@ -275,6 +275,8 @@ pub struct Task {
     /// > 0 while the task is inside an interposed C-library call (see interpose.rs): frames that
     /// cannot be unwound through, so the task is abandoned rather than unwound when killed
     pub foreign_depth: u32,
+    /// a signal arrived while the task was blocked in poll: epoll_wait returns EINTR
+    pub eintr: bool,
 }
 
 pub struct Proc {
@@ -761,7 +763,7 @@ impl World {
             end: None,
             kill_pending: false,
             started: false,
-            ops: 0, foreign_depth: 0 });
+            ops: 0, foreign_depth: 0, eintr: false });
         self.procs[proc].tasks.push(id);
         if is_main {
             self.procs[proc].main_task = Some(id);
@@ -840,6 +842,19 @@ impl World {
         }
         let h = self.procs[p].handler.clone();
         self.record(Ev::Signal { proc: p, sig, handled: h.is_some() });
+        // a signal handled by the process interrupts the system call of whichever thread the
+        // kernel picks to run the handler (and, after a stop / continue, of every thread): each
+        // task of the process that is blocked in poll may see EINTR (a seeded choice per task)
+        if h.is_some() {
+            let blocked: Vec<TaskId> = self.tasks.iter().filter(|t| t.proc == p && matches!(t.state, TState::Blocked { cond: Wait::Poll(_), .. })).map(|t| t.id).collect();
+            for t in blocked {
+                if self.choose(2) == 1 {
+                    self.tasks[t].eintr = true;
+                    self.tasks[t].state = TState::Runnable;
+                    *self.fault_fired.entry("poll_eintr").or_insert(0) += 1;
+                }
+            }
+        }
         if h.is_none() {
             // default action: terminate
             self.terminate_proc(p, 128 + sig, "signal");
@@ -1615,6 +1630,12 @@ pub fn udp_send_to(sock: SockId, data: &[u8], dst: SocketAddr) -> io::Result<usi
 }
 
 pub fn poll_wait(poll: PollId, max: usize, timeout: Option<Duration>) -> io::Result<Vec<usize>> {
+    poll_wait_opts(poll, max, timeout, false)
+}
+
+/// `interruptible`: a signal that arrives while the task is blocked makes the call fail with
+/// `Interrupted` (mio's `poll_interruptible`); otherwise the wait is resumed, as `Poll::poll` does.
+pub fn poll_wait_opts(poll: PollId, max: usize, timeout: Option<Duration>, interruptible: bool) -> io::Result<Vec<usize>> {
     yield_point(Op::Poll);
     let deadline = with(|w| timeout.map(|d| w.now + d.as_nanos().min(u64::MAX as u128 / 4) as u64));
     let spurious = with(|w| {
@@ -1641,6 +1662,14 @@ pub fn poll_wait(poll: PollId, max: usize, timeout: Option<Duration>) -> io::Res
         block_on(Wait::Poll(poll), deadline);
         if std::thread::panicking() || !in_task() {
             return Ok(vec![]);
+        }
+        let interrupted = with(|w| {
+            let t = w.current.unwrap();
+            std::mem::take(&mut w.tasks[t].eintr)
+        });
+        if interrupted && interruptible {
+            with(|w| w.record(Ev::PollRet { poll, tokens: vec![], spurious: true }));
+            return Err(io::Error::new(io::ErrorKind::Interrupted, "Interrupted system call (os error 4)"));
         }
     }
 }
